@@ -115,21 +115,23 @@ type harness struct {
 	expectedPost   map[string]*core.Entry
 	pending   map[string][]pendingResult
 
-	// disk scenario
-	disk *diskState
+	// disk scenario (modelSide marks endpoints that stay in-memory models in a
+	// mixed session)
+	disk      *diskState
+	modelSide map[string]bool
 }
 
 // currentTree returns what is on the endpoint now (caller holds h.mu for the
 // model; the disk variant walks the real root).
 func (h *harness) currentTree(side string) *core.Entry {
-	if h.disk != nil {
+	if h.disk != nil && !h.modelSide[side] {
 		return h.disk.walkTree(side)
 	}
 	return h.trees[side]
 }
 
 func (h *harness) rootPath(side string) string {
-	if h.disk != nil {
+	if h.disk != nil && !h.modelSide[side] {
 		return h.disk.roots[side]
 	}
 	return "/model/" + side
@@ -143,7 +145,7 @@ func (h *harness) configure(c *synchronization.Configuration) {
 
 // applyUserOp performs a user edit on the model tree or on the real root.
 func (h *harness) applyUserOp(op simkit.Op) {
-	if h.disk != nil {
+	if h.disk != nil && !h.modelSide[op.Str(0)] {
 		h.disk.userOp(op)
 		return
 	}
@@ -207,7 +209,7 @@ func (h *harness) connect(ctx context.Context, logger *logging.Logger, url *urlp
 	if f := h.s.MatchFault("connect_error", side, h.s.Occur("connect."+side)); f != nil {
 		return nil, errors.New("injected connect failure")
 	}
-	if h.disk != nil {
+	if h.disk != nil && !h.modelSide[side] {
 		return h.connectDisk(logger, url, session, version, configuration, alpha)
 	}
 	return &modelEndpoint{h: h, side: side}, nil
